@@ -19,7 +19,9 @@ CLAIMED = {
               "composed set. Operator trees are handled by structural induction (each override is checked against the "
               "interface contract of its children), counts k and divisors are unbounded mathematical integers; the "
               "reductions of repetition counts modulo the divisor rest on Lean 4 theorems (periodicity / stabilisation "
-              "of k-fold sumsets in Z/d, padding vs. common multiples, n-ary residues and bounds) re-checked every run."),
+              "of k-fold sumsets in Z/d, padding vs. common multiples, n-ary residues and bounds) re-checked every run."
+              " Effect obligations decided on the ASTs (complete for what they state): no function of the anchored modules carries an argument-keyed cache decorator or mutates module-level state. The native (bounded) reading additionally checks after every query that all memo caches reachable "
+              "from the receiver still hold answers of their child's set (operands are never changed)."),
         note=("Assumed: the library model (itertools.product / combinations_with_replacement enumerate exactly the "
               "tuples / multisets, math.lcm), hand transcription of Lean theorems into SMT prelude axioms, Python sets "
               "are finite; domain: leaf sets of non-negative ints, k >= 0, alignment >= 1. 'Operands are never "
@@ -36,7 +38,7 @@ CLAIMED = {
               "rule-specific InvalidDefinitionError if and only if some pair of definitions violates the rule, for lists "
               "of any length and any pattern of names, versions, kinds, port-IDs, sealing and extents (loop invariants "
               "/ loop-body summaries, no bound). Proof level fits because the property is a per-call input/output "
-              "relation over integers, booleans and names."),
+              "relation over integers, booleans and names. Effect obligations decided on the ASTs (complete for what they state): no function of the anchored modules carries an argument-keyed cache decorator or mutates module-level state."),
         note=("Assumed: class invariants of CompositeType/ServiceType (established by their constructors; the "
               "ServiceType parts-name clause is established by DataTypeBuilder.finalize only), interface contract of "
               "`extent`, closed-world class hierarchy, the library model; the call site in _complete_read_function "
@@ -52,9 +54,10 @@ CLAIMED = {
               "values arbitrarily close to every boundary are covered; the stored value is the given one. The ranges are "
               "tied to the real inclusive_value_range bodies by finite instantiation over every width and to "
               "FloatType.__init__'s exact magnitude table; PrimitiveType/ArithmeticType/FloatType constructors raise "
-              "iff the width is inadmissible."),
+              "iff the width is inadmissible. Effect obligations decided on the ASTs (complete for what they state): no function of the anchored modules carries an argument-keyed cache decorator or mutates module-level state."),
         note=("Assumed: Attribute.__init__/check_name (names, C05) may reject independently; str.encode('utf8') "
-              "raises iff the string holds a surrogate and a single byte iff one code point < 0x80 (CPython); "
+              "raises iff the string holds a surrogate and a single byte iff one code point < 0x80 (CPython), with "
+              "errors='ignore' it drops the surrogates instead; "
               "Fraction is an exact rational; class invariants of the type classes; that the reader passes every "
               "constant statement to Constant.__init__ is C03."),
         design_ref="DESIGN.md section 5 C12, section 11",
